@@ -30,7 +30,7 @@ theorem lits_np_ptm : Gen.lits_partition_np_ptm1 = [1, 1, 1, 0, 0] ∧ Gen.lits_
 
 /-- the sort key is `npstats.hs`: trapezoid `0.5`, tail above `0.333` Hz with weight `0.25`, `4·sqrt` -/
 theorem lits_sort_key : Gen.lits_npstats_hs =
-    [1, 1, 1, 1, 0, 1, 1/2, 1, 1, 1, Consts.thr, Consts.quarter, 1, 1, 4] := by decide +kernel
+    [1, 1, 1, 1, 0, 360, 1, 1/2, 1, 1, 1, Consts.thr, Consts.quarter, 1, 1, 4] := by decide +kernel
 
 /-! ## soundness of every output bin -/
 
@@ -332,7 +332,7 @@ theorem swells_sorted_ptm3 (key : Vec → Rat) (bins : List Bin) (cnt : Option N
   | some s => exact fitCount_sorted key bins _ s _ hkey0
 
 /-- PTM1/2/3 with the code's Hs key on a non-negative spectrum: swells in non-increasing Hs, empty ones last -/
-theorem swells_sorted_hs (f dirs : Vec) (wscut : Rat) (bins : List Bin) (cnt : Option Nat)
+theorem swells_sorted_hs (f dirs : Vec) (wscut : Rat) (bins : List Bin) (cnt : Option Nat) (hd : DirsOk dirs)
     (hnonneg : ∀ b ∈ bins, 0 ≤ b.e) :
     (((ptm1 (npHsKey f dirs) wscut bins cnt).tail).map (fun p => npHsKey f dirs p.vals)).Pairwise (fun x y => y ≤ x) ∧
     (((ptm2 (npHsKey f dirs) wscut bins cnt).drop 2).map (fun p => npHsKey f dirs p.vals)).Pairwise (fun x y => y ≤ x) ∧
@@ -341,15 +341,15 @@ theorem swells_sorted_hs (f dirs : Vec) (wscut : Rat) (bins : List Bin) (cnt : O
   · intro p hp
     rw [ptm1Slots_eq] at hp
     obtain ⟨d, _, rfl⟩ := List.mem_map.mp hp
-    exact hs_key_zero_least f dirs bins _ hnonneg
+    exact hs_key_zero_least f dirs bins _ hd hnonneg
   · intro p hp
     rw [ptm2Slots_eq] at hp
     obtain ⟨d, _, rfl⟩ := List.mem_map.mp hp
-    exact hs_key_zero_least f dirs bins _ hnonneg
+    exact hs_key_zero_least f dirs bins _ hd hnonneg
   · intro p hp
     rw [ptm3Slots_eq] at hp
     obtain ⟨d, _, rfl⟩ := List.mem_map.mp hp
-    exact hs_key_zero_least f dirs bins _ hnonneg
+    exact hs_key_zero_least f dirs bins _ hd hnonneg
 
 /-- generic form of "the dropped ones are the smallest": with fewer requested than detected, the sorted slot list is
     `kept ++ dropped`, every dropped slot has a key `≤` every kept one, and the sorted list is a permutation of the
